@@ -50,7 +50,7 @@ func c16Build(kinds []int) (data []byte, plains [][]byte, offsets []int) {
 		var err error
 		switch kind {
 		case ref.CRaw, ref.CRawReset:
-			plain, err = g.Add(ref.ChunkSpec{Kind: kind, Raw: []byte(fmt.Sprintf("raw%d~", i))})
+			plain, err = g.Add(ref.ChunkSpec{Kind: kind, Raw: []byte(fmt.Sprintf("raw%d\xff", i))})
 		default:
 			win := len(g.Win.Buf)
 			if kind == ref.CLZMAFull {
